@@ -176,7 +176,8 @@ def importlib_reload():
 
 def parse_report(out, files):
     """-> {file: {dialect: (loads, encodes)}} or raises ValueError."""
-    lines = out.splitlines()
+    lines = [ln for ln in out.splitlines()
+             if not ln.startswith("pvl library version:")]      # printed with -v
     res = {}
     if len(files) == 1:
         rows = {}
@@ -264,8 +265,17 @@ def check_validate(texts):
         v["parser"].lexer = counting_lexer()
     buf = io.StringIO()
     try:
-        with contextlib.redirect_stdout(buf):
-            pv.main(files)
+        # every third invocation asks for the verbose report (-v / -vv): errors then go
+        # to the log, the table on standard output has to stay what it is
+        import logging
+        import zlib
+        k = zlib.crc32(repr(texts).encode("utf-8", "surrogatepass")) % 6
+        flags = {0: ["-v"], 1: ["-vv"]}.get(k, [])
+        logging.getLogger().handlers.clear()        # basicConfig() acts once per process
+        with contextlib.redirect_stdout(buf), \
+                contextlib.redirect_stderr(io.StringIO()):
+            pv.main(flags + files)
+        logging.getLogger().handlers.clear()
     except BudgetExceeded:
         return ("C20/validate/spins", f"pvl_validate did not terminate: {texts!r:.300}")
     except SystemExit as e:
